@@ -72,6 +72,9 @@ def call(ex, node, state):
             ex.ctx.oblige(state, 'expm-square', line, a.shape[0] == a.shape[1], 'expected a square matrix')
             ex.ctx.oblige(state, 'expm-shape', line, a.shape[1] == v.shape[0], 'shapes of matrix and vector are not compatible')
             return npmodel.new_arr(state, [v.shape[0]], z3.simplify(z3.Or(a.cplx, v.cplx)))
+        if nm == 'Object' and not node.args:
+            from vt.e1.values import SObj
+            return SObj(state.alloc())
         if nm == 'TT':
             args = [ex.ev(a, state) for a in node.args]
             return call_contract(ex, state, 'TT.__init__', [None] + args, kwargs_of(ex, node, state), line)
